@@ -1,2 +1,3 @@
 //! Shared helpers for the end-to-end (real Session vs mock cluster) checks; bins under src/bin.
 pub mod c07_pager; // C07: page splits, reference expectation, scripted world, case runner, oracle
+pub mod c14_model; // C14: stateful node model, event alphabet, world (Session + mock), oracle
